@@ -291,9 +291,133 @@ func (g *vfC02G) script(specs ...*VfC02Spec) []string {
 	return out
 }
 
+// longSpec generates a VALID flow of n nodes that reuses one to three filters
+// under distinct aliases, with forward jumps (short skips) and END targets on
+// any node, so that a request executes many nodes (the trace of one request
+// grows well beyond 16 invocations) and results still matter on the late ones.
+func (g *vfC02G) longSpec(n int, prefix string) VfC02Spec {
+	nd := 1 + g.r.Intn(3)
+	decls := []VfC02Decl{}
+	for i := 0; i < nd; i++ {
+		decls = append(decls, VfC02Decl{Name: vfC02Names[i], Kind: g.pick("VfC02KA", "VfC02KB", "VfC02KA", "VfC02KB", "VfC02KC")})
+	}
+	nodes := make([]VfC02Node, n)
+	for i := range nodes {
+		x := &nodes[i]
+		if i > 2 && g.chance(1, 45) {
+			x.Filter = BuiltInFilterEnd
+			continue
+		}
+		x.Filter = decls[g.r.Intn(nd)].Name
+		x.Alias = prefix + string(rune('a'+i/10)) + string(rune('0'+i%10))
+		if g.chance(1, 4) {
+			x.Ns = g.pickFrom(vfC02Nss)
+		}
+	}
+	for i := range nodes {
+		x := &nodes[i]
+		if x.Filter == BuiltInFilterEnd {
+			continue
+		}
+		var kind string
+		for _, d := range decls {
+			if d.Name == x.Filter {
+				kind = d.Kind
+			}
+		}
+		for _, res := range VfC02KindResults[kind] {
+			if !g.chance(1, 2) {
+				continue
+			}
+			if x.JumpIf == nil {
+				x.JumpIf = map[string]string{}
+			}
+			tgt := BuiltInFilterEnd
+			for j := i + 1 + g.r.Intn(4); j < n && g.chance(4, 5); j++ {
+				if nodes[j].Filter != BuiltInFilterEnd {
+					tgt = nodes[j].Alias
+					break
+				}
+			}
+			x.JumpIf[res] = tgt
+		}
+	}
+	return VfC02Spec{Decls: decls, Flow: nodes}
+}
+
+// longScript keeps the first invocations mostly on the straight path and
+// makes the late ones return results.
+func (g *vfC02G) longScript(quiet, total int) []string {
+	out := make([]string, 0, total)
+	for i := 0; i < total; i++ {
+		p := 1 // of 24: non-empty result
+		if i >= quiet {
+			p = 9
+		}
+		if g.r.Intn(24) < p {
+			out = append(out, g.pick("r1", "r2", "r3", "r2"))
+		} else {
+			out = append(out, "")
+		}
+	}
+	return out
+}
+
+// vfC02GenLong generates a case in which one request executes more than 16
+// filter invocations: one long flow, or before + main + after adding up.
+func vfC02GenLong(g *vfC02G, gfMode bool) VfC02In {
+	var in VfC02In
+	switch {
+	case gfMode:
+		in.Mode = "gf"
+	case g.chance(1, 2):
+		in.Mode = "handle"
+	default:
+		in.Mode = "hba"
+	}
+	if in.Mode == "handle" {
+		in.Main = g.longSpec(20+g.r.Intn(21), "x")
+	} else {
+		b, a := g.longSpec(5+g.r.Intn(5), "p"), g.longSpec(5+g.r.Intn(5), "q")
+		in.Main = g.longSpec(6+g.r.Intn(14), "x")
+		in.Before, in.After = &b, &a
+	}
+	in.Script = g.longScript(15+g.r.Intn(8), 60)
+	return in
+}
+
 // VfC02Gen generates one case. gfMode selects the GlobalFilter entry.
 func VfC02Gen(r VfC02Rand, adv bool, gfMode bool) VfC02In {
 	g := &vfC02G{r: r, adv: adv}
+	in := vfC02Gen(g, gfMode)
+	// half of the cases are handled by a second generation
+	switch k := g.r.Intn(4); {
+	case k == 2:
+		in.Gen = 1
+	case k == 3:
+		in.Gen = 2
+	}
+	// a third of the requests carry a deadline: far ahead, already expired, or
+	// (rarely: it costs a 10 ms sleep) passing while the first filter runs
+	switch k := g.r.Intn(60); {
+	case k < 8:
+		in.Deadline = "far"
+	case k < 19:
+		in.Deadline = "expired"
+	case k < 20:
+		in.Deadline = "near"
+	}
+	return in
+}
+
+func vfC02Gen(g *vfC02G, gfMode bool) VfC02In {
+	longP := 8
+	if g.adv {
+		longP = 3
+	}
+	if g.chance(1, longP) {
+		return vfC02GenLong(g, gfMode)
+	}
 	var in VfC02In
 	in.Main = g.spec(6)
 	switch {
@@ -318,12 +442,5 @@ func VfC02Gen(r VfC02Rand, adv bool, gfMode bool) VfC02In {
 		in.Raw = true
 	}
 	in.Script = g.script(&in.Main, in.Before, in.After)
-	// half of the cases are handled by a second generation
-	switch k := g.r.Intn(4); {
-	case k == 2:
-		in.Gen = 1
-	case k == 3:
-		in.Gen = 2
-	}
 	return in
 }
